@@ -138,7 +138,7 @@ FAMILIES = {
     "C01": {"struct", "dict"}, "C02": {"struct", "leak", "dict", "set", "consume", "bulk", "clone"},
     "C03": {"struct", "full", "bulk", "leak"}, "C04": {"struct", "uniq", "dict", "set"},
     "C05": {"struct", "uniq", "sweep"}, "C06": set(), "C07": {"struct", "set", "bulk"}, "C08": {"alg"},
-    "C09": {"iter"}, "C10": {"consume", "struct"}, "C11": {"struct", "entry"}, "C12": {"ident", "bulk"},
+    "C09": {"iter"}, "C10": {"consume", "struct", "leak"}, "C11": {"struct", "entry"}, "C12": {"ident", "bulk"},
     "C13": {"gdm"}, "C14": {"eq"}, "C15": {"clone"}, "C16": {"bulk", "struct"}, "C17": {"struct"},
     "C18": {"struct", "unchecked"}, "C19": {"fmt", "dbg"}, "C20": {"serde"},
 }
@@ -157,6 +157,22 @@ class Case:
         self.state = {r: {"len": 0, "cap": c, "empty": True, "ents": []} for r, c in self.caps.items()}
         self.injected = False
         self.forgot = False
+        self.calls = 0           # user callbacks made so far in this case (sum of the `nc` fields)
+
+
+def retain_calls(case, t, pre, mask, got, reg, fails):
+    """`retain`: the predicate is asked exactly once per entry; with a STATEFUL predicate (mask >= 65536:
+    the answer is bit (call number mod 16) of the mask) as many entries go as calls answered false."""
+    ev = t["ev"]
+    asks = [j for j, e in enumerate(ev) if e == "c0"]
+    if len(asks) != len(pre):
+        fails.append("%s retain asked the predicate %d times about %d entries" % (reg, len(asks), len(pre)))
+    if mask >= 65536 and got is not None:
+        rejects = sum(1 for j in asks if not (mask >> ((case.calls + j + 1) % 16)) & 1)
+        if len(got["ents"]) != len(pre) - rejects:
+            fails.append("%s retain: the predicate rejected %d of %d entries, %d are left" % (reg, rejects, len(pre), len(got["ents"])))
+        if not {(e[0], e[1]) for e in got["ents"]} <= {(e[0], e[1]) for e in pre}:
+            fails.append("%s retain: an entry appeared that was not there: %s" % (reg, got["ents"]))
 
 
 def check_struct(case, reg, snap, fam, fails):
@@ -259,10 +275,12 @@ def dict_step(case, reg, toks, t, fam, ids, fails):
         return True
     if op == "retain":
         mask, bump = int(toks[2]), int(toks[3])
-        post = [(x[0], x[1], x[2], x[3] + bump) for x in pre if (mask >> x[0]) & 1]
         if oc != "ok":
             fails.append("%s retain ended %s" % (reg, oc))
-        expect_state(reg, got, post, ids, fails, op)
+        retain_calls(case, t, pre, mask, got, reg, fails)
+        if mask < 65536:
+            post = [(x[0], x[1], x[2], x[3] + bump) for x in pre if (mask >> x[0]) & 1]
+            expect_state(reg, got, post, ids, fails, op)
         return True
     if op == "clear":
         expect_state(reg, got, [], ids, fails, op)
@@ -320,7 +338,9 @@ def set_step(case, reg, toks, t, ids, fails):
         return True
     if op == "retain":
         mask = int(toks[2])
-        expect_state(reg, got, [x for x in pre if (mask >> x[0]) & 1], ids, fails, op)
+        retain_calls(case, t, pre, mask, got, reg, fails)
+        if mask < 65536:
+            expect_state(reg, got, [x for x in pre if (mask >> x[0]) & 1], ids, fails, op)
         return True
     if op == "clear":
         expect_state(reg, got, [], ids, fails, op)
@@ -1109,6 +1129,11 @@ def run(prop, ops_path, impl_path, profile):
         first = None
         for j in range(1, n):
             opl = c["traced"][j]
+            if j > 1:
+                try:
+                    case.calls += int(parse_line(il[j - 1]).get("nc") or 0)
+                except (TypeError, ValueError):
+                    pass
             t = parse_line(il[j])
             toks = opl.split()
             fails = []
@@ -1122,6 +1147,8 @@ def run(prop, ops_path, impl_path, profile):
                     first = (j, opl, fails[0], il[j])
                 continue
             reg = toks[0]
+            if "forget" in opl:
+                case.forgot = True
             if re.fullmatch(r"u[01]", reg):
                 # map-API view of a set register (`Map<Key, (), N>`): the iterator oracle applies, with
                 # `()` for the values; otherwise only the state is kept
